@@ -147,6 +147,16 @@ def check(case):
             out.append(Fail('pl-uninterpretable', {'error': str(exc)[:150], 'text': text[:300]}))
     if bd.observe(fm) != model:
         out.append(Fail('export-mutates-model', None))
+    if not out and sh.size(model) <= 2:
+        for W, ext in ((SPLOTWriter, 'sxfm'), (PLWriter, 'exp')):
+            try:
+                expect = W(engine.tmppath('m2.' + ext), fm).transform()
+            except Exception:  # noqa: BLE001
+                continue
+            bad = cm.bare_name_write(W, fm, ext, expect)
+            if bad is not None:
+                bad.clause = ext + ':' + bad.clause
+                out.append(bad)
     return out
 
 
